@@ -1,6 +1,157 @@
-(* C20 — property theorems only (placeholder during bring-up; completed below) *)
-From FB Require Import C20.Fmt C20.RawGen.
+(* C20 — property theorems only.  Each is closed by [exact <lemma>] and followed by
+   Print Assumptions; the statements are pinned here so they cannot be quietly weakened.
+
+   D ranges over ALL environments of declarations of the notation! language (Fmt.v); raw_env is
+   the table GENERATED from raw_class_file/src/lib.rs at the start of every check (RawGen.v);
+   jvms_env is the hand-written JVMS table (Jvms.v). *)
+From FB Require Import C20.Fmt C20.FmtTheory C20.RawGen C20.Jvms.
+Open Scope N_scope.
+
+(* ---------- generic: the three interpreters, for every environment D ---------- *)
+
+(* the announced length is the number of bytes written *)
+Theorem C20_len_write : forall D fuel t v bs,
+  write_sty D fuel t v = Ok bs -> len_sty D fuel t v = Ok (N.of_nat (length bs)).
+Proof. exact len_write. Qed.
+Print Assumptions C20_len_write.
+
+(* ClassFile::length() == to_bytes().len() (files shorter than 2^32 bytes) *)
+Theorem C20_class_length_exact : forall D v bs,
+  class_write D v = Ok bs -> N.of_nat (length bs) < 4294967296 ->
+  class_length D v = Ok (N.of_nat (length bs)).
+Proof. exact class_length_exact. Qed.
+Print Assumptions C20_class_length_exact.
+
+(* write then read returns the value (whatever follows in the input is left untouched), for every
+   value whose numbers/counts fit and whose tags/nowrite/length expressions resolve *)
+Theorem C20_read_write : forall D, denv_wf D = true -> forall fuel p t v bs rest strict,
+  write_sty D fuel t v = Ok bs -> resolves D fuel p t v = true ->
+  read_sty D strict fuel p t (bs ++ rest) = Ok (v, rest).
+Proof. exact read_write. Qed.
+Print Assumptions C20_read_write.
+
+(* byte-exactness: whatever the strict reader accepts (= the lax reader of the crate, plus: every
+   computed count/length/tag item of the file holds the value the declarations compute), the
+   writer reproduces byte for byte *)
+Theorem C20_write_read : forall D fuel p t bs v rest, Forall (fun b => b < 256) bs ->
+  read_sty D true fuel p t bs = Ok (v, rest) ->
+  exists pre, bs = pre ++ rest /\ write_sty D fuel t v = Ok pre.
+Proof. exact write_read. Qed.
+Print Assumptions C20_write_read.
+
+(* the strict reader only refuses more than the crate's reader *)
+Theorem C20_strict_implies_lax : forall D f p t b r,
+  read_sty D true f p t b = Ok r -> read_sty D false f p t b = Ok r.
+Proof. exact strict_implies_lax. Qed.
+Print Assumptions C20_strict_implies_lax.
+
+(* fuel (nesting depth bound of the model) never changes a successful result *)
+Theorem C20_len_fuel : forall D f f' t v n, (f <= f')%nat -> len_sty D f t v = Ok n -> len_sty D f' t v = Ok n.
+Proof. exact len_mono. Qed.
+Print Assumptions C20_len_fuel.
+Theorem C20_write_fuel : forall D f f' t v b, (f <= f')%nat -> write_sty D f t v = Ok b -> write_sty D f' t v = Ok b.
+Proof. exact write_mono. Qed.
+Print Assumptions C20_write_fuel.
+Theorem C20_read_fuel : forall D strict f f' p t b r, (f <= f')%nat ->
+  read_sty D strict f p t b = Ok r -> read_sty D strict f' p t b = Ok r.
+Proof. exact read_mono. Qed.
+Print Assumptions C20_read_fuel.
+
+(* soundness of the symbolic length check, for every environment: if every alternative of a union
+   passes [attr_len_ok], then in every value written the four bytes after the tag hold the number
+   of bytes that follow them *)
+Theorem C20_attr_len_check_sound : forall D n tv tw vars ft,
+  lookup D n = Some (DEnum tv tw vars ft) ->
+  forallb (fun va => attr_len_ok tw (v_fields va)) vars = true ->
+  forall fuel k vs bs, write_sty D fuel (Named n) (VV k vs) = Ok bs ->
+  exists tg body, bs = enc tw tg ++ enc W32 (N.of_nat (length body)) ++ body.
+Proof. exact attr_len_exact_gen. Qed.
+Print Assumptions C20_attr_len_check_sound.
+
+(* ---------- instances: the table generated from lib.rs (re-checked on every run) ---------- *)
 
 Theorem C20_generated_table_wf : denv_wf raw_env = true.
-Proof. vm_compute. reflexivity. Qed.
+Proof. exact raw_env_wf. Qed.
 Print Assumptions C20_generated_table_wf.
+
+(* every generated struct/union is laid out as the JVMS one (widths of all items and counts, tag
+   values / attribute names of every alternative) *)
+Theorem C20_layout_is_jvms : forall n d, In (n, d) raw_env ->
+  exists j, lookup jvms_env n = Some j /\ layout_matches (layout d) (layout j) = true.
+Proof. exact layout_is_jvms. Qed.
+Print Assumptions C20_layout_is_jvms.
+
+(* union dispatch is order-independent (disjoint tag ranges, distinct attribute names, catch-all
+   last) and literal tags / attribute name indices are written as they are recognised *)
+Theorem C20_dispatch_unambiguous : forall n d, In (n, d) raw_env ->
+  decl_dispatch_ok d = true /\ decl_tags_coherent d = true.
+Proof. exact dispatch_unambiguous. Qed.
+Print Assumptions C20_dispatch_unambiguous.
+
+Theorem C20_magic_is_cafebabe :
+  match lookup raw_env "ClassFile"%string with
+  | Some (DStruct (FConst _ W32 e :: _)) => lit_of e = Some 3405691582
+  | _ => False
+  end.
+Proof. exact magic_is_cafebabe. Qed.
+Print Assumptions C20_magic_is_cafebabe.
+
+(* attribute_length, for EVERY attribute kind of the generated table and every value: the u32
+   after the name index is the number of bytes that follow *)
+Theorem C20_attr_len_symbolic : forall va, In va attr_variants -> attr_len_ok W16 (v_fields va) = true.
+Proof. exact attr_len_symbolic. Qed.
+Print Assumptions C20_attr_len_symbolic.
+
+Theorem C20_attr_len_exact : forall fuel k vs bs,
+  write_sty raw_env fuel (Named "AttributeInfo"%string) (VV k vs) = Ok bs ->
+  exists tg body, bs = enc W16 tg ++ enc W32 (N.of_nat (length body)) ++ body.
+Proof. exact attr_len_exact. Qed.
+Print Assumptions C20_attr_len_exact.
+
+(* the public functions over the generated table *)
+Theorem C20_class_read_write : forall v bs fuel strict, class_write raw_env v = Ok bs ->
+  resolves raw_env (S (depth v)) None class_ty v = true -> (S (depth v) <= fuel)%nat ->
+  read_sty raw_env strict fuel None class_ty bs = Ok (v, []).
+Proof. exact class_read_write. Qed.
+Print Assumptions C20_class_read_write.
+
+Theorem C20_class_write_read : forall fuel bs v, Forall (fun b => b < 256) bs ->
+  read_sty raw_env true fuel None class_ty bs = Ok (v, []) -> write_sty raw_env fuel class_ty v = Ok bs.
+Proof. exact class_write_read. Qed.
+Print Assumptions C20_class_write_read.
+
+(* ---------- known finding F10: constant_pool_count with Long/Double entries ---------- *)
+(* known class: the pool holds a Long or a Double ([has_wide]); outside it the count written is
+   the JVMS one *)
+Theorem C20_pool_count_is_jvms : forall pool, has_wide pool = false -> N.of_nat (length pool) < 65535 ->
+  written_pool_count pool = Ok (jvms_pool_count pool).
+Proof. exact pool_count_is_jvms. Qed.
+Print Assumptions C20_pool_count_is_jvms.
+
+Theorem C20_pool_count_refuted :
+  exists pool, has_wide pool = true /\ written_pool_count pool <> Ok (jvms_pool_count pool).
+Proof. exact pool_count_refuted. Qed.
+Print Assumptions C20_pool_count_refuted.
+
+(* the unrestricted statement — NOT proved (it is false today) *)
+Definition C20_pool_count_full : Prop := pool_count_full.
+
+(* reading side of F10: a class file whose pool is well-formed per JVMS 4.4.5 and holds a Long is
+   rejected by the reader *)
+Theorem C20_wide_class_refuted :
+  (exists rest, jvms_pool_of_class wide_class_bytes = Some (true, rest) /\ length rest = 14%nat)
+  /\ class_read raw_env wide_class_bytes = Err.
+Proof. exact wide_class_refuted. Qed.
+Print Assumptions C20_wide_class_refuted.
+
+(* ---------- non-vacuity: the crate's own fixture and a javac class satisfy every hypothesis ---------- *)
+Theorem C20_examples : nonvacuous.
+Proof. exact nonvacuous_holds. Qed.
+Print Assumptions C20_examples.
+
+(* what the hypothesis [resolves] of C20_read_write amounts to for stack map frames (sweeps of the
+   whole u8 domain on the generated table): same_frame / same_locals_1_stack_item need
+   offset_delta <= 63, chop_frame 1 <= k <= 3, append_frame 1..3 locals *)
+Theorem C20_frames_closed_form : frames_closed_form.
+Proof. exact frames_closed_form_holds. Qed.
+Print Assumptions C20_frames_closed_form.
